@@ -31,7 +31,7 @@ PROBES = ['reply-and-deadline-both-enabled', 'reply-after-timeout', 'duplicate-r
           'unsolicited-reply-delivered', 'loss-with-pending-calls', 'replies-out-of-call-order',
           'sig-mismatch', 'call-issued-from-callback', 'second-connection-same-serials',
           'identical-call-in-flight-twice', 'serial-wrap-around',
-          'hang-up-from-callback', 'call-cancelled-by-its-owner', 'call-cancelled-by-its-owner-from-a-callback']
+          'hang-up-from-callback', 'deadline-refused-by-the-reactor', 'call-cancelled-by-its-owner', 'call-cancelled-by-its-owner-from-a-callback']
 COMPONENTS = {
     'real': ['txdbus.client.DBusClientConnection (callRemote, callRemoteMessage, '
              'methodReturnReceived, errorReceived, _onMethodTimeout, connectionLost, _cbCvtReply)',
@@ -200,13 +200,19 @@ def scenario(ctx):
         sig = gen.signature(ds, 2)
         body = gen.tx_body(ds, sig)[1] if sig else None
         kw = {}
+        refused_deadline = False
         if forced is not None:
             if forced:
                 kw['timeout'] = forced
+        elif not scripted and ds.flag(0.03):
+            # a deadline the reactor refuses (an overdrawn time budget, an unconverted string): the
+            # call fails at once - and then it has not been sent and nothing is kept for it
+            kw['timeout'] = ds.pick([-0.5, -30.0, '2.5'])
+            refused_deadline = True
         elif ds.flag(0.5):
             c.timeout = ds.pick([1.0, 0.25, 5.0, 30.0])
             kw['timeout'] = c.timeout
-        if forced is None and ds.flag(0.12):
+        if forced is None and not refused_deadline and ds.flag(0.12):
             c.expect_reply = False
             kw['expectReply'] = False
         if ds.flag(0.5):
@@ -228,6 +234,18 @@ def scenario(ctx):
         c.obs = Obs(sim, cid, sink).watch(d)
         c.d = d
         new = [t for t in sim.timers if id(t) not in before]
+        if refused_deadline:
+            sim.probe('deadline-refused-by-the-reactor')
+            calls.pop()
+            if len(rig.sent) != nsent or new:
+                raise Violation('C08/send', 'refused call was sent',
+                                'callRemote(timeout=%r) failed, yet %d message(s) were written and %d '
+                                'timer(s) armed' % (kw['timeout'], len(rig.sent) - nsent, len(new)))
+            if not c.obs.fired or c.obs.fired[0][0] != 'err':
+                raise Violation('C08/send', 'refused deadline accepted',
+                                'callRemote(timeout=%r) did not fail: %r' % (kw['timeout'], c.obs.fired))
+            sink[:] = [e for e in sink if e[0] != cid]
+            return
         if len(rig.sent) != nsent + 1:
             raise Violation('C08/send', 'call-not-written',
                             'callRemote wrote %d messages' % (len(rig.sent) - nsent))
